@@ -1,6 +1,7 @@
 package worlds
 
 import (
+	"errors"
 	"fmt"
 	"strings"
 	"time"
@@ -48,6 +49,10 @@ type c15Run struct {
 	global   []string // destination writes in arrival order (serialized entries), all instances
 	gstart   []int    // index into global where each instance starts
 	curGlobal []string
+	faulty    bool     // runs with a destination that fails some writes: only the at-most-once/order oracle applies
+	accepted  []string // lines the destination accepted (returned success for), in order, faulty runs
+	lineSeq   map[string]int
+	dstCalls  int
 	cond     zerolog.Level
 	trig     zerolog.Level
 	nLine    int
@@ -55,8 +60,18 @@ type c15Run struct {
 
 type c15Dst struct{ r *c15Run }
 
-func (d c15Dst) record(l zerolog.Level, p []byte) {
+func (d c15Dst) record(l zerolog.Level, p []byte) error {
 	r := d.r
+	if r.faulty {
+		r.dstCalls++
+		zsim.Yield("dst.Write")
+		if r.dstCalls%3 == 2 {
+			zsim.Fault("dst_error")
+			return errors.New("destination error")
+		}
+		r.accepted = append(r.accepted, string(p))
+		return nil
+	}
 	op := r.cur[zsim.CurID()]
 	if op == nil {
 		zsim.Fail("C15.unexpected_write", "destination written outside any operation: %s", clip(p, 80))
@@ -73,20 +88,25 @@ func (d c15Dst) record(l zerolog.Level, p []byte) {
 		zsim.Fault("dst_blocks")
 		zsim.Sleep(time.Millisecond)
 	}
+	return nil
 }
 
 type c15LevelDst struct{ c15Dst }
 
 func (d c15LevelDst) Write(p []byte) (int, error) {
 	if !zsim.Dying() {
-		d.record(0, p)
+		if err := d.record(0, p); err != nil {
+			return 0, err
+		}
 	}
 	return len(p), nil
 }
 
 func (d c15LevelDst) WriteLevel(l zerolog.Level, p []byte) (int, error) {
 	if !zsim.Dying() {
-		d.record(l, p)
+		if err := d.record(l, p); err != nil {
+			return 0, err
+		}
 	}
 	return len(p), nil
 }
@@ -95,7 +115,9 @@ type c15PlainDst struct{ c15Dst }
 
 func (d c15PlainDst) Write(p []byte) (int, error) {
 	if !zsim.Dying() {
-		d.record(0, p)
+		if err := d.record(0, p); err != nil {
+			return 0, err
+		}
 	}
 	return len(p), nil
 }
@@ -178,7 +200,7 @@ func (r *c15Run) doOp(w *zerolog.TriggerLevelWriter, lg *zerolog.Logger, inst in
 			lg.WithLevel(zerolog.Level(in.Level)).Str("l", strings.TrimSuffix(in.Line, "\n")).Msg("")
 		} else {
 			n, err := w.WriteLevel(zerolog.Level(in.Level), []byte(in.Line))
-			if (n != len(in.Line) || err != nil) && !zsim.Dying() {
+			if (n != len(in.Line) || err != nil) && !zsim.Dying() && !r.faulty {
 				zsim.Fail("C15.result", "WriteLevel returned (%d,%v) for a %d-byte line", n, err, len(in.Line))
 			}
 		}
@@ -219,15 +241,22 @@ func (t c15Tap) WriteLevel(l zerolog.Level, p []byte) (int, error) {
 func (r *c15Run) genLine() string {
 	r.nLine++
 	n := 0
-	switch r.ch.Weighted(12, 3, 1) {
+	switch r.ch.Weighted(48, 12, 4, 1) {
 	case 0:
 		n = r.ch.Intn(30)
 	case 1:
 		n = 100 + r.ch.Intn(200)
 	case 2:
 		n = 900 + r.ch.Intn(400)
+	case 3:
+		n = 65536 + r.ch.Intn(5000) // longer than any 16-bit length field
+		zsim.Probe("huge_line")
 	}
-	return fmt.Sprintf("line%d %s\n", r.nLine, strings.Repeat("z", n))
+	line := fmt.Sprintf("line%d %s\n", r.nLine, strings.Repeat("z", n))
+	if r.lineSeq != nil {
+		r.lineSeq[line] = r.nLine
+	}
+	return line
 }
 
 func (c15World) Run(prop string, ch *zsim.Choices, trace bool) *RunResult {
@@ -246,6 +275,14 @@ func (c15World) Run(prop string, ch *zsim.Choices, trace bool) *RunResult {
 		zerolog.TriggerLevelWriterBufferReuseLimit = []int{64 * 1024, 1024, 64, 4096}[ch.Intn(4)]
 		nTasks := 1 + ch.Weighted(4, 3, 2, 1)
 		nInst := 1 + ch.Weighted(3, 2, 1)
+		if ch.Chance(1, 6) {
+			// a destination that fails every third write. The statement is about destinations
+			// that succeed, so the model is not applied; what still must hold is that no line
+			// is accepted twice
+			r.faulty = true
+			r.lineSeq = map[string]int{}
+			nTasks = 1
+		}
 		s.ArmDraw([]string{"writer.go"})
 		summary = fmt.Sprintf("cond=%d trig=%d level-dst=%v blocking-dst=%d tasks=%d writers=%d reuse-limit=%d", r.cond, r.trig, r.levelDst, r.blockDst, nTasks, nInst, zerolog.TriggerLevelWriterBufferReuseLimit)
 		zsim.Log("config: %s", summary)
@@ -308,6 +345,18 @@ func (c15World) Run(prop string, ch *zsim.Choices, trace bool) *RunResult {
 			return viol("C15.blocked", "writers cannot finish: %s", s.StuckInfo)
 		}
 		if s.Truncated {
+			return nil
+		}
+		if r.faulty {
+			// (no order clause here: a held line is legitimately released after later lines
+			// that were passed through at once)
+			seen := map[string]bool{}
+			for _, l := range r.accepted {
+				if seen[l] {
+					return viol("C15.duplicate", "with a destination that fails some writes, line %s was accepted twice", clipS(l, 40))
+				}
+				seen[l] = true
+			}
 			return nil
 		}
 		r.gstart = append(r.gstart, len(r.global))
